@@ -8,6 +8,8 @@ initial state by valid operations, so each theorem below holds for every history
 import PamsLemmas.MarketLemmas
 import Mathlib.Data.Nat.Basic
 
+set_option linter.unusedSectionVars false
+
 namespace Pams.C01
 open Pams
 variable {P : Type} [LinearOrder P]
